@@ -6,6 +6,7 @@ import (
 	"bytes"
 	"fmt"
 	gotoken "go/token"
+	"runtime/debug"
 	"sort"
 	"sync"
 
@@ -28,6 +29,8 @@ type Result struct {
 	Fset     *gotoken.FileSet
 	AST      *ast.Package
 	Panic    any // non-nil if a panic escaped NewPackage/WriteTo
+	Stack    string
+	Phase    string // "parse" | "newpackage" | "writeto": where a panic escaped
 }
 
 // Options of one compilation.
@@ -86,9 +89,11 @@ func CompileOrdered(nameSrc []string, opt Options) (res Result) {
 	defer func() {
 		if p := recover(); p != nil {
 			res.Panic = p
+			res.Stack = string(debug.Stack())
 			res.Err = fmt.Errorf("panic: %v", p)
 		}
 	}()
+	res.Phase = "parse"
 	pkgs, err := parser.ParseFSDir(fset, fs, "/foo", parser.Config{Mode: parser.ParseComments})
 	res.ParseErr = err
 	if err != nil && !opt.Partial {
@@ -114,12 +119,14 @@ func CompileOrdered(nameSrc []string, opt Options) (res Result) {
 	res.AST = pkg
 	conf := &cl.Config{Fset: fset, Importer: im, LookupClass: lookupClass, NoFileLine: opt.NoFileLine,
 		NoAutoGenMain: opt.NoAutoMain, Outline: opt.Outline}
+	res.Phase = "newpackage"
 	p, err := cl.NewPackage("", pkg, conf)
 	if err != nil {
 		res.Err = err
 		return
 	}
 	res.Pkg = p
+	res.Phase = "writeto"
 	var b bytes.Buffer
 	if err := p.WriteTo(&b); err != nil {
 		res.Err = err
